@@ -230,6 +230,73 @@ fn state_json(st: &State, t: u32, script: &[usize]) -> Value {
     })
 }
 
+/// The multi-party step is delegated: both functionaries file a two-step sub-layout, and what is
+/// compared are the summaries (first inner step's materials, last inner step's products). A dissent
+/// that shows in a summary must make verification fail.
+fn delegated_leg(acc: &mut Acc) {
+    let (a, b, inner_f, owner) = (keys::get("ed1"), keys::get("ed2"), keys::get("ed5"), keys::get("ed6"));
+    let dir = util::fresh_dir("c07d");
+    for (name, dissent_in, summary_visible) in [
+        ("none", "", false),
+        ("first inner step's materials", "in1.materials", true),
+        ("last inner step's products", "in2.products", true),
+        ("last inner step's products: extra entry", "in2.products+", true),
+        ("last inner step's products: no digest bytes", "in2.products0", true),
+        ("first inner step's products (not part of the summary)", "in1.products", false),
+        ("last inner step's materials (not part of the summary)", "in2.materials", false),
+    ] {
+        for e in std::fs::read_dir(&dir).unwrap().flatten() {
+            let p = e.path();
+            if p.is_dir() {
+                let _ = std::fs::remove_dir_all(p);
+            } else {
+                let _ = std::fs::remove_file(p);
+            }
+        }
+        let lay = world::sign_layout(world::layout(vec![world::step("s", 2, &[a, b])], vec![], &[a, b], world::far_future()), &[owner]);
+        for (k, dissents) in [(a, false), (b, true)] {
+            let inner = world::layout(vec![world::step("in1", 1, &[inner_f]), world::step("in2", 1, &[inner_f])], vec![], &[inner_f], world::far_future());
+            world::write(&dir, &world::link_file("s", k), &world::block_text(&world::sign_layout(inner, &[k])));
+            let sub = dir.join(format!("s.{}", k.prefix()));
+            std::fs::create_dir_all(&sub).unwrap();
+            let d = |which: &str| dissents && dissent_in.starts_with(which);
+            let mut l1 = world::link("in1", world::arts(&[("src", if d("in1.materials") { 9 } else { 1 })]), world::arts(&[("mid", if d("in1.products") { 9 } else { 2 })]));
+            let mut l2 = world::link("in2", world::arts(&[("mid", if d("in2.materials") { 9 } else { 2 })]), world::arts(&[("out", if dissents && dissent_in == "in2.products" { 9 } else { 3 })]));
+            if dissents && dissent_in == "in2.products+" {
+                l2.products.insert(world::vpath("zz-extra"), world::desc(7));
+            }
+            if dissents && dissent_in == "in2.products0" {
+                let mut dsc = in_toto::models::TargetDescription::new();
+                dsc.insert(HashAlgorithm::Sha256, HashValue::new(vec![]));
+                l2.products.insert(world::vpath("out"), dsc);
+            }
+            l1.name = "in1".into();
+            world::write(&sub, &world::link_file("in1", inner_f), &world::block_text(&world::sign_link(l1, &[inner_f])));
+            world::write(&sub, &world::link_file("in2", inner_f), &world::block_text(&world::sign_link(l2, &[inner_f])));
+        }
+        let runs = run_all_orders(&dir, &lay, acc);
+        acc.states += 1;
+        acc.nontrivial += 1;
+        for (script, v) in &runs {
+            acc.outcome(&format!("delegated|{}|{}", if summary_visible { "dissent" } else { "agree" }, v.tag()));
+            match v {
+                Verdict::Ok(_) if summary_visible => acc.violation(
+                    "accepted-dissent:delegated-step",
+                    &format!("a delegated step with threshold 2 was accepted although the two sub-layouts' results differ in the {name}"),
+                    || json!({"kind": "delegated", "dissent": name, "schedule": script}),
+                ),
+                Verdict::Ok(_) => acc.accepting += 1,
+                Verdict::Panic(l, m) => acc.violation(&format!("panic:{l}"), &format!("verification panicked at {l}: {m}"), || json!({"kind": "delegated", "dissent": name})),
+                Verdict::Err(_) => {
+                    if dissent_in.is_empty() {
+                        acc.note("delegated-agreeing-step-rejected(one-directional: not judged)");
+                    }
+                }
+            }
+        }
+    }
+}
+
 pub fn run(tier: Tier) -> i32 {
     let mut c = Check::new("C07", "model_checking", tier);
     let kmax = if tier.thorough() { 4 } else { 3 };
@@ -294,7 +361,7 @@ pub fn run(tier: Tier) -> i32 {
         let layouts: Vec<(u32, &str, Metablock)> = thresholds
             .iter()
             .flat_map(|t| SHAPES.iter().map(move |sh| (*t, *sh)))
-            .filter(|(t, sh)| k == 2 || *sh == "alone" || *t == 2)
+            .filter(|(t, sh)| k == 2 || *sh == "alone" || (*t == 2 && k == 3))
             .filter(|(_, sh)| k == 2 || (tier.thorough() && k == 3) || !sh.contains("multi-party"))
             .map(|(t, sh)| (t, sh, layout(sh, t)))
             .collect();
@@ -353,14 +420,20 @@ pub fn run(tier: Tier) -> i32 {
         );
         acc.merge(Acc::merge_all(accs.into_iter().map(|(a, _)| a).collect()));
     }
+    delegated_leg(&mut acc);
     c.acc = acc;
-    c.rule = "state = vector of per-link variations (27 kinds: none; in materials or products: other path, last / first digest byte, digest truncated by a byte / extended by a byte / of no bytes, other algorithm, second algorithm added, extra entry sorting last / first, missing last / first entry, empty map) for k authorised valid links, optionally plus a dissenting link by a key outside the key table or a tampered one; transition = change one link's variation; every state runs in_toto_verify for thresholds 2..min(k,3), with the step alone, next to a single-party step (before it, after it, after a threshold-0 step) and next to a second multi-party step whose links agree (before it, after it) under every permutation of the reference-link choice (site C); non-trivial = vectors that are not all equal".into();
+    c.rule = "state = vector of per-link variations (27 kinds: none; in materials or products: other path, last / first digest byte, digest truncated by a byte / extended by a byte / of no bytes, other algorithm, second algorithm added, extra entry sorting last / first, missing last / first entry, empty map) for k authorised valid links, optionally plus a dissenting link by a key outside the key table or a tampered one; transition = change one link's variation; every state runs in_toto_verify for thresholds 2..min(k,3), with the step alone, next to a single-party step (before it, after it, after a threshold-0 step) and next to a second multi-party step whose links agree (before it, after it) under every permutation of the reference-link choice (site C); plus a delegated multi-party step (two functionaries, two-step sub-layouts) with a dissent at each of 6 places, 4 of them visible in the summaries; non-trivial = vectors that are not all equal".into();
     c.bound_completed = format!("complete variation vectors for {} (BFS reaches every vector)", bounds.join(", "));
     c.assume("all k links are validly signed by authorised keys of the key table; no rules (isolates C03)");
     c.finish()
 }
 
 pub fn replay(case: &Value) -> Value {
+    if case["kind"] == "delegated" {
+        let mut acc = Acc::new();
+        delegated_leg(&mut acc);
+        return json!({"violation": acc.violations.keys().next()});
+    }
     let f = fns();
     let vars: Vec<usize> = case["vars"].as_array().map(|a| a.iter().filter_map(|x| x.as_u64().map(|x| x as usize)).collect()).unwrap_or_default();
     let st = State { vars, extra: case["extra"].as_u64().unwrap_or(0) as u8 };
